@@ -130,8 +130,9 @@ def _sw_ok_ensures(pre, post):
     o, o2 = pre.obj('stream'), post.obj('stream')
     n = pre.int('length')
     i = t.var('i!', t.INT)
-    written = t.forall([i], t.implies(t.and_(t.le(t.ZERO, i), t.lt(i, n)), t.eq(t.select(o2.buf, t.add(o.pos, i)), _dat(pre, i))),
-                       pats=[[t.select(o2.buf, t.add(o.pos, i))]])
+    # absolute index form: the pattern (select buf' i) fires for every index term
+    written = t.forall([i], t.implies(t.and_(t.le(o.pos, i), t.lt(i, t.add(o.pos, n))), t.eq(t.select(o2.buf, i), _dat(pre, t.sub(i, o.pos)))),
+                       pats=[[t.select(o2.buf, i)]])
     j = t.var('j!', t.INT)
     kept = t.forall([j], t.implies(t.and_(t.le(t.ZERO, j), t.lt(j, t.imin(o.pos, o.len))), t.eq(t.select(o2.buf, j), t.select(o.buf, j))),
                     pats=[[t.select(o2.buf, j)]])
